@@ -14,9 +14,9 @@ B=$(go build ./... 2>&1 | grep -v "^#" | grep -v "unmarshal/legacy\|writer/http"
 [ -n "$B" ] && { echo "$B"; res "build-fails"; exit 1; }
 T=$(go test -vet=off -count=1 ./... 2>&1 | grep -v "no test files" | grep "^FAIL\|^---" | grep -v "unmarshal/legacy\|writer/http\|^FAIL$")
 [ -n "$T" ] && { echo "$T"; res "suite-fails-with-mutant"; exit 1; }
-bash -c "$DEMO" > /tmp/vm/$N.with.log 2>&1; W=$?
+bash -c "$DEMO" > /tmp/vm/$N.with.log 2>&1; W=$?; grep -q "^--- FAIL\|^FAIL" /tmp/vm/$N.with.log && W=1
 git apply -R MUTANT/patch.diff
-bash -c "$DEMO" > /tmp/vm/$N.without.log 2>&1; O=$?
+bash -c "$DEMO" > /tmp/vm/$N.without.log 2>&1; O=$?; grep -q "^--- FAIL\|^FAIL" /tmp/vm/$N.without.log && O=1
 echo "demo with mutant exit=$W; without exit=$O"
 if [ $W -ne 0 ] && [ $O -eq 0 ]; then
   D=/verif/seeded/$N; rm -rf $D; mkdir -p $D; cp MUTANT/patch.diff $D/; cp -r MUTANT/demo $D/demo
